@@ -213,7 +213,7 @@ def rules_c04(ctx, tab, tag=""):
                    % show(fin), site, trace_of(r.path), what="stale-pause-record-kept")
     ctx.ob("R1" + tag, "table/same-state-row-exists", n_same >= 1,
            "the same-state early return must exist (%d row(s))" % n_same, site, what="no-same-state-row")
-    ctx.floor("table" + tag, "set_state rows", len(rows), 6)
+    ctx.floor("table" + tag, "set_state rows", len(rows), 3)
 
 
 def rules_c05(ctx, tab, tag=""):
